@@ -1205,14 +1205,26 @@ def source_wiring_oracle():
 
 
 def correspondence(ctx):
-    return _run(ctx)
+    from props import c15_extra
+
+    r = _run(ctx)
+    r.merge(c15_extra.run(ctx))
+    return r
 
 
 def search(ctx, prior):
-    return _run(ctx, oracle_only=True)
+    from props import c15_extra
+
+    r = _run(ctx, oracle_only=True)
+    r.merge(c15_extra.run(ctx))
+    return r
 
 
 def replay(ctx, doc):
+    if doc["failure"]["input"].get("kind") == "wiring-history":
+        from props import c15_extra
+
+        return c15_extra.replay(doc["failure"]["input"])
     inp = doc["failure"]["input"]
     if "scenario" in inp and "wiring" in inp["scenario"]:
         w = inp["scenario"]["wiring"]
